@@ -186,17 +186,17 @@ theorem parseFormulaXls_total (ctx : Ctx) (rgce : Bytes) : Total (parseFormulaXl
   | panic m => exact absurd hrun (hr.2.1 m)
   | outOfFuel => exact absurd hrun hr.2.2
 
-theorem runXlsb_total (ctx : Ctx) (fuel : Nat) : ∀ (rgce : Bytes) (st : St), Inv st → rgce.length ≤ fuel →
-    (∀ st', runXlsb ctx fuel rgce st = .ok st' → Inv st') ∧ (∀ m, runXlsb ctx fuel rgce st ≠ .panic m) ∧
-    runXlsb ctx fuel rgce st ≠ .outOfFuel := by
+theorem runXlsb_total (ctx : Ctx) (fuel : Nat) : ∀ (d : Nat) (rgce : Bytes) (st : St), Inv st → rgce.length ≤ fuel →
+    (∀ st', runXlsb ctx d fuel rgce st = .ok st' → Inv st') ∧ (∀ m, runXlsb ctx d fuel rgce st ≠ .panic m) ∧
+    runXlsb ctx d fuel rgce st ≠ .outOfFuel := by
   induction fuel with
   | zero =>
-    intro rgce st hinv hlen
+    intro d rgce st hinv hlen
     have : rgce = [] := List.length_eq_zero_iff.mp (by omega)
     subst this
     simp [runXlsb]; exact hinv
   | succ f ih =>
-    intro rgce st hinv hlen
+    intro d rgce st hinv hlen
     cases rgce with
     | nil => simp [runXlsb]; exact hinv
     | cons p r =>
@@ -216,20 +216,23 @@ theorem runXlsb_total (ctx : Ctx) (fuel : Nat) : ∀ (rgce : Bytes) (st : St), I
           | outOfFuel => simp [need] at h2; split at h2 <;> simp at h2
           | ok u2 =>
             simp only
+            by_cases hdep : d ≥ maxMemDepth
+            · simp only [hdep, if_true]; simp
+            simp only [hdep, if_false]
             have hsub : ((r.drop 2).take (u16 r 0)).length ≤ f := by simp; omega
             have hrest : ((r.drop 2).drop (u16 r 0)).length ≤ f := by simp; omega
             by_cases he : ((r.drop 2).take (u16 r 0)).isEmpty = true
             · simp only [he, if_true]
-              exact ih _ _ (inv_push [] hinv) hrest
+              exact ih d _ _ (inv_push [] hinv) hrest
             · have he' : ((r.drop 2).take (u16 r 0)).isEmpty = false := by simpa using he
               simp only [he', Bool.false_eq_true, if_false]
-              have hs := ih ((r.drop 2).take (u16 r 0)) ⟨[], []⟩ inv_init hsub
-              cases hr : runXlsb ctx f ((r.drop 2).take (u16 r 0)) ⟨[], []⟩ with
+              have hs := ih (d + 1) ((r.drop 2).take (u16 r 0)) ⟨[], []⟩ inv_init hsub
+              cases hr : runXlsb ctx (d + 1) f ((r.drop 2).take (u16 r 0)) ⟨[], []⟩ with
               | ok s =>
                 simp only [finishXlsb]
                 by_cases hl : s.stk.length = 1
                 · simp only [hl, if_true]
-                  exact ih _ _ (inv_push s.buf hinv) hrest
+                  exact ih d _ _ (inv_push s.buf hinv) hrest
                 · simp only [hl, if_false]; simp
               | err e => simp
               | panic m' => exact absurd hr (hs.2.1 m')
@@ -246,7 +249,7 @@ theorem runXlsb_total (ctx : Ctx) (fuel : Nat) : ∀ (rgce : Bytes) (st : St), I
             omega
           have hai := applyAct_inv a st hinv
           cases ha : applyAct a st with
-          | ok st' => simp only; exact ih r' st' (hai.1 st' ha) hr'
+          | ok st' => simp only; exact ih d r' st' (hai.1 st' ha) hr'
           | err e => simp
           | panic m' => exact absurd ha (fun h => hai.2 m' h)
           | outOfFuel => exact absurd ha (applyAct_ne_fuel a st)
@@ -258,8 +261,8 @@ theorem parseFormulaXlsb_total (ctx : Ctx) (rgce : Bytes) : Total (parseFormulaX
   unfold parseFormulaXlsb
   split
   · exact ⟨by simp, by simp⟩
-  have hr := runXlsb_total ctx rgce.length rgce ⟨[], []⟩ inv_init (Nat.le_refl _)
-  cases hrun : runXlsb ctx rgce.length rgce ⟨[], []⟩ with
+  have hr := runXlsb_total ctx rgce.length 0 rgce ⟨[], []⟩ inv_init (Nat.le_refl _)
+  cases hrun : runXlsb ctx 0 rgce.length rgce ⟨[], []⟩ with
   | ok st => simp only [finishXlsb]; split <;> exact ⟨by simp, by simp⟩
   | err e => exact ⟨by simp, by simp⟩
   | panic m => exact absurd hrun (hr.2.1 m)
@@ -274,4 +277,47 @@ theorem definedNameXls_total (rgce : Bytes) : Total (definedNameXls rgce) := by
     all_goals first
       | (unfold needDn; apply needLen_bind_total; exact ⟨by simp, by simp⟩)
       | exact ⟨by simp, by simp⟩
+/-! ### nesting depth of PtgMemFunc sub-expressions -/
+
+theorem depthUsed_le (ctx : Ctx) (fuel : Nat) : ∀ (d : Nat) (rgce : Bytes) (st : St),
+    depthUsed ctx d fuel rgce st ≤ max d maxMemDepth := by
+  induction fuel with
+  | zero => intro d rgce st; cases rgce <;> simp [depthUsed] <;> omega
+  | succ f ih =>
+    intro d rgce st
+    cases rgce with
+    | nil => simp [depthUsed]; omega
+    | cons p r =>
+      simp only [depthUsed]
+      split
+      · split
+        · split
+          · split
+            · omega
+            · rename_i hd
+              have hd' : d + 1 ≤ maxMemDepth := by omega
+              split
+              · exact ih d _ _
+              · have h1 := ih (d + 1) ((r.drop 2).take (u16 r 0)) ⟨[], []⟩
+                have hm : max (d + 1) maxMemDepth = maxMemDepth := by omega
+                split
+                · rename_i f' _
+                  have h2 := ih d ((r.drop 2).drop (u16 r 0)) ⟨st.buf ++ f', st.stk ++ [st.buf.length]⟩
+                  have hmd : max d maxMemDepth = maxMemDepth := by omega
+                  rw [hm] at h1
+                  rw [hmd] at h2 ⊢
+                  exact Nat.max_le.mpr ⟨h1, h2⟩
+                · omega
+          · omega
+        · omega
+      · split
+        · split
+          · exact ih d _ _
+          · omega
+        · omega
+
+/-- from the top-level call the recursion never goes deeper than `maxMemDepth` -/
+theorem depthUsed_top (ctx : Ctx) (rgce : Bytes) : depthUsed ctx 0 rgce.length rgce ⟨[], []⟩ ≤ maxMemDepth := by
+  have := depthUsed_le ctx rgce.length 0 rgce ⟨[], []⟩
+  omega
 end Formula
